@@ -449,6 +449,11 @@ func c17Modes() []plMode {
 		{"amp/comma", amp | C, '&', "comma", "tok"}, {"amp/sp", amp | S, '&', "sp", "tok"}, {"amp/eoh", amp, '&', "eoh", "tok"}, {"amp/end", amp | E, '&', "end", "tok"},
 		{"uriparam/qm", up, ';', "qm", "tok"}, {"uriparam/end", up | E, ';', "end", "tok"}, {"uriparam/eoh", up, ';', "eoh", "tok"},
 		{"urihdr/end", uh | E, '&', "end", "tok"}, {"urihdr/eoh", uh, '&', "eoh", "tok"}, {"urihdr/sp", uh | S, '&', "sp", "tok"},
+		// the SP terminator together with a terminator character ("or both"): ended by either
+		{"semi/comma|sp:sp", semi | C | S, ';', "sp", "tok"}, {"semi/comma|sp:comma", semi | C | S, ';', "comma", "tok"},
+		{"semi/qm|sp:sp", semi | Q | S, ';', "sp", "tok"}, {"semi/qm|sp:qm", semi | Q | S, ';', "qm", "tok"},
+		{"uriparam|sp:sp", up | S, ';', "sp", "tok"}, {"uriparam|sp:qm", up | S, ';', "qm", "tok"}, {"amp/comma|sp:sp", amp | C | S, '&', "sp", "tok"},
+		{"ParseAllURIParams/qm|sp:sp", up | S, ';', "sp", "uriparams"}, {"ParseAllURIParams/comma|sp:sp", C | S, ';', "sp", "uriparams"}, {"ParseAllURIHdrs/comma|sp:sp", uh | C | S, '&', "sp", "urihdrs"},
 		{"ParseAllURIParams/qm", up, ';', "qm", "uriparams"}, {"ParseAllURIParams/end", up | E, ';', "end", "uriparams"}, {"ParseAllURIParams/sp", S, ';', "sp", "uriparams"},
 		{"ParseAllURIParams/eoh", 0, ';', "eoh", "uriparams"},
 		{"ParseAllURIHdrs/end", uh | E, '&', "end", "urihdrs"}, {"ParseAllURIHdrs/eoh", 0, '&', "eoh", "urihdrs"}, {"ParseAllURIHdrs/sp", S, '&', "sp", "urihdrs"},
